@@ -6,7 +6,7 @@ CONSTANTS
   MaxBatch = 8
   NReq = 3
   ForkEpochs = {0}
-INVARIANTS TypeOK DomainRight Memoryless HandedOwn SigCorrect NoSignatureWithoutDomain ErrorHasNoSignatures
+INVARIANTS TypeOK DomainRight Memoryless HandedOwn SigCorrect NoSignatureWithoutDomain ErrorHasNoSignatures RefusedForCause
 PROPERTIES TraceReplyStable
 CONSTRAINT HWM
 POSTCONDITION TraceAccepted
